@@ -8,6 +8,7 @@ import numpy as np
 from common import *
 
 IMPORTS = "From QE Require Import C14.Model."
+IMPORTS_DOM = "From Coq Require Import Qabs.\nFrom QE Require Import Gen.Consts C14.Model C14.Dominated.\nFrom QE Require C04.Model C04.Proofs C04.ProofsMM2."
 FINISH = dict(level="proof", technique_note=(
     "Coq theorems (coq/C14/Props.v) about the executable model coq/C14/Model.v (arrays as shape + flat list, "
     "axis rotations, reductions); model evaluated by vm_compute inside Coq on the inputs AND outputs of the "
@@ -62,6 +63,33 @@ Definition dom_ok (c : arr Q * Q * list bool) : bool :=
   all2 (fun a r => if (nopp =? 0)%nat then Bool.eqb (is_dominated_0 P a tol) r
                    else implb (dominated_by_pure P a tol) r && implb (never_worse_somewhere P a tol) (negb r))
        (seq 0 (hd 0%nat (shape P))) rs.
+"""
+
+PRE_DOM = """
+Definition optsQ : @C04.Model.PivOptions Q := {| C04.Model.fea_tol := lp_FEA_TOL; C04.Model.tol_piv := lp_TOL_PIV; C04.Model.tol_ratio_diff := lp_TOL_RATIO_DIFF |}.
+Definition big_iter : nat := Z.to_nat 1000000.
+Definition dom_value (o : @C04.Model.PivOptions Q) (P : arr Q) (a : nat) : Q :=
+  let '(v, _, _) := C04.Model.minmax (hd 0%nat (shape P) - 1) (size (tl (shape P))) (diff_game P a) big_iter o in v.
+Fixpoint all2 {A B} (f : A -> B -> bool) (a : list A) (b : list B) : bool :=
+  match a, b with [], [] => true | x :: a', y :: b' => f x y && all2 f a' b' | _, _ => false end.
+(* is_dominated (minmax route, tolerances of the source) against the implementation; a value within 1e-9 of tol is
+   borderline for the floating-point code and not compared *)
+Definition domv_ok (c : arr Q * Q * list bool) : bool :=
+  let '(P, tol, rs) := c in
+  all2 (fun a r => if ((length (shape P) - 1 =? 0) || (hd 0 (shape P) - 1 =? 0))%nat then Bool.eqb (is_dominated P a tol big_iter optsQ) r
+                   else if Qle_bool (Qabs (dom_value optsQ P a - tol)) (1 # 1000000000) then true
+                   else Bool.eqb (is_dominated P a tol big_iter optsQ) r) (seq 0 (hd 0%nat (shape P))) rs.
+Definition dom_border (c : arr Q * Q * list bool) : bool :=
+  let '(P, tol, rs) := c in
+  if ((length (shape P) - 1 =? 0) || (hd 0 (shape P) - 1 =? 0))%nat then true
+  else forallb (fun a => negb (Qle_bool (Qabs (dom_value optsQ P a - tol)) (1 # 1000000000))) (seq 0 (hd 0%nat (shape P))).
+(* hypothesis of C14_dominated_spec measured: the tolerance-0 run of minmax ends with inner status 0 and gives the same verdict *)
+Definition dom_thm (c : arr Q * Q * list bool) : bool :=
+  let '(P, tol, rs) := c in
+  if ((length (shape P) - 1 =? 0) || (hd 0 (shape P) - 1 =? 0))%nat then true
+  else forallb (fun a => (C04.ProofsMM2.minmax_inner_status (hd 0%nat (shape P) - 1) (size (tl (shape P))) (diff_game P a) big_iter =? 0)%nat &&
+                         Bool.eqb (is_dominated P a tol big_iter C04.Proofs.opts0) (is_dominated P a tol big_iter optsQ))
+               (seq 0 (hd 0%nat (shape P))).
 """
 
 
@@ -671,6 +699,18 @@ def run(ctx):
     bad = ctx.coq_check("is_dominated_bounds", IMPORTS, "arr Q * Q * list bool", "dom_ok", dom_cases, chunk=30, preamble=PRE)
     for i in bad:
         ctx.mismatch("C14.Model.is_dominated_0/dominated_by_pure/never_worse_somewhere vs Player.is_dominated", dom_meta[i])
+    ch = max(1, len(dom_cases) // 14)
+    bad = ctx.coq_check("is_dominated_minmax", IMPORTS_DOM, "arr Q * Q * list bool", "domv_ok", dom_cases, chunk=ch, preamble=PRE_DOM)
+    for i in bad:
+        ctx.mismatch("C14.Dominated.is_dominated (difference game + C04 minmax model, exact arithmetic) vs Player.is_dominated(method=None)", dom_meta[i])
+    nb = ctx.coq_check("is_dominated_separated", IMPORTS_DOM, "arr Q * Q * list bool", "dom_border", dom_cases, chunk=ch, preamble=PRE_DOM)
+    ctx.corr["is_dominated_separated"]["mismatches"] = 0
+    ctx.count("dominated:arrays with a game value within 1e-9 of tol (not compared)", len(nb))
+    nt = ctx.coq_check("is_dominated_theorem_hypothesis", IMPORTS_DOM, "arr Q * Q * list bool", "dom_thm", dom_cases, chunk=ch, preamble=PRE_DOM)
+    ctx.corr["is_dominated_theorem_hypothesis"]["mismatches"] = 0
+    ctx.count("dominated:arrays where the tolerance-0 minmax run does not end with status 0 or changes the verdict", len(nt))
+    if nt:
+        ctx.notes.append("C14_dominated_spec hypothesis (inner status 0) not met / verdict differs at tolerance 0 on: %s" % [jsonable(dom_meta[i]) for i in nt[:3]])
 
     # ============================================================ 4. non-mutation around dynamics objects (observed only)
     from scipy.stats import norm
